@@ -65,7 +65,7 @@ def fx_lean_ty(t):
     if k == "res" and len(t) >= 3:
         return "Except %s %s" % (t[2], io_paren(fx_lean_ty(t[1]))) if t[1] is not None else "Except %s Unit" % t[2]
     if k == "enum":
-        return t[1]
+        return t[2] if len(t) > 2 else t[1]
     if k == "strlit":
         return "String"
     if k == "list" and len(t) == 3:
@@ -197,6 +197,26 @@ class FxParser(IoParser):
             return self.primary(False)
         return IoParser.match_pat(self)
 
+    def pattern(self):
+        # `Enum::Variant`, `Enum::Variant(p, …)`
+        x = self.peek()
+        if x.kind == "id" and self.at("::", 1) and self.peek(2).kind == "id":
+            path = [self.next().text]
+            while self.at("::") and self.peek(1).kind == "id":
+                self.next()
+                path.append(self.next().text)
+            if self.at("("):
+                self.next()
+                items = []
+                while not self.at(")"):
+                    items.append(self.pattern())
+                    if self.at(","):
+                        self.next()
+                self.expect(")")
+                return N("pctor", x.pos, name="::".join(path), items=items)
+            return N("ppath", x.pos, path=path)
+        return IoParser.pattern(self)
+
     def stmt0(self):
         x = self.peek()
         if x.kind == "id" and x.text == "loop" and self.at("{", 1):
@@ -253,6 +273,10 @@ class FxParser(IoParser):
             self.expect("=>")
             if self.at("{"):
                 body = self.block()
+            elif self.at("return"):
+                r = self.next()
+                rv = None if (self.at(",") or self.at("}")) else self.expr()
+                body = N("block", r.pos, stmts=[N("return", r.pos, e=rv)], tail=None)
             else:
                 e = self.expr()
                 body = N("block", e.pos, stmts=[], tail=e)
@@ -327,8 +351,24 @@ class FxFn(IoFn):
                 return ("tuple", [self.parse_ty(ft) for _, ft in self.structs[name]["fields"]]), j
             if name == "Error" and len(path) >= 2 and path[-2] == "io":
                 return ("ioerr",), j
+            gens_full = dict(self.unit.get("generics", {}))
+            if "::".join(path) in gens_full and len(path) > 1:
+                if toks[j].text == "<":
+                    _, j = self._targs(toks, j)
+                return ("abs", gens_full["::".join(path)]), j
             if name in self.enums:
-                return ("enum", name), j
+                if toks[j].text == "<":
+                    j0 = j
+                    depth = 0
+                    while True:
+                        if toks[j].text == "<":
+                            depth += 1
+                        elif toks[j].text == ">":
+                            depth -= 1
+                        j += 1
+                        if depth == 0:
+                            break
+                return self.enum_ty(name), j
             if name == "Result" and toks[j].text == "<":
                 args, j = self._targs(toks, j)
                 if len(args) == 2:
@@ -346,6 +386,13 @@ class FxFn(IoFn):
                     return ("res", args[0]), j
                 return mk_res(args[0], self.unit.get("result_err", "IoErr")), j
         return IoFn._pty(self, toks, i)
+
+    def enum_ty(self, name):
+        ed = self.enums[name]
+        return ("enum", name, ed["lean"]) if ed.get("lean") else ("enum", name)
+
+    def enum_ctor(self, name, vn):
+        return self.enums[name].get("ctors", {}).get(vn, "%s.%s" % (name, vn))
 
     def _targs(self, toks, j):
         args = []
@@ -598,7 +645,9 @@ class FxFn(IoFn):
             if len(e.path) == 2 and e.path[0] in self.enums:
                 for vn, vargs in self.enums[e.path[0]]["variants"]:
                     if vn == e.path[1] and not vargs:
-                        return k("%s.%s" % (e.path[0], vn), ("enum", e.path[0]), env)
+                        return k(self.enum_ctor(e.path[0], vn), self.enum_ty(e.path[0]), env)
+            if len(e.path) >= 2 and e.path[-2] == "ErrorKind":
+                return k("\"%s\"" % e.path[-1], ("strlit",), env)
             self.err("path `%s` as a value" % "::".join(e.path), e)
         if kd == "try":
             if self.ret_ty[0] != "res":
@@ -666,6 +715,17 @@ class FxFn(IoFn):
             return self.ev(e.args[0], env, kerr)
         if path == ["String", "new"] and not e.args:
             return k("([] : List Nat)", STR, env)
+        if path[-2:] == ["mem", "replace"] and len(e.args) == 2:
+            key = self.lvalue_key(e.args[0], env, e)
+            var = env[key]
+
+            def kmr(v, t, e2):
+                old = self.tmp()
+                cur = e2[key]
+                e3 = dict(e2)
+                e3[key] = IoVar(cur.lean, cur.ty, cur.depth, cur.mutable)
+                return ("let", old, cur.lean, ("let", cur.lean, v, k(old, cur.ty, e3)))
+            return self.ev(e.args[1], env, kmr, var.ty)
         if path == ["char", "from"] and len(e.args) == 1:
             def kcf(v, t, e2):
                 if t != U8 and not (t[0] == "int" and t[1] in ("u8", None)):
@@ -688,7 +748,9 @@ class FxFn(IoFn):
         if len(path) == 2 and path[0] in self.enums and len(e.args) == 1:
             for vn, vargs in self.enums[path[0]]["variants"]:
                 if vn == path[1] and len(vargs) == 1:
-                    return self.ev(e.args[0], env, lambda v, t, e2: k("(%s.%s %s)" % (path[0], vn, io_paren(v)), ("enum", path[0]), e2))
+                    want_a = self.parse_ty(vargs[0])
+                    return self.ev(e.args[0], env, lambda v, t, e2: k("(%s %s)" % (self.enum_ctor(path[0], vn), io_paren(v)),
+                                                                     self.enum_ty(path[0]), e2), want_a)
         if len(path) == 2:
             sib = self.sibling(path[1], static=path[0])
             if sib is not None:
@@ -861,6 +923,20 @@ class FxFn(IoFn):
                 x = self.tmp()
                 return ("bind", x, "Rs.chunks %s %s" % (io_paren(v), io_paren(n_)), k(x, ("list", (t[0], t[1])), e2))
             return self.ev_list([e.recv, e.args[0]], env, kch, [None, ("int", "usize")])
+        if nm == "kind" and not e.args:
+            def kk(v, t, e2):
+                if t[0] != "ioerr":
+                    self.err("`.kind()` on %r" % (t,), e)
+                return k("%s.kind" % io_paren(v), ("strlit",), e2)
+            return on_recv(kk)
+        if nm == "records" and not e.args and e.recv.kind == "call" and e.recv.path[-2:] == ["Reader", "new"] \
+                and len(e.recv.path) >= 3 and len(e.recv.args) == 1:
+            opn = self.unit.get("records_ops", {}).get(e.recv.path[-3])
+            if opn is None:
+                self.err("`%s(…).records()`" % "::".join(e.recv.path), e)
+            self.need_op(opn, e)
+            ret = self.parse_ty(self.ops[opn]["ret"])
+            return self.ev(e.recv.args[0], env, lambda v, t, e2: k("%s %s" % (opn, io_paren(v)), ret, e2))
         if nm == "chain" and len(e.args) == 1 and e.recv.kind == "call" and e.recv.path[-2:] == ["Cursor", "new"] \
                 and len(e.recv.args) == 1:
             self.need_op("chain", e)
@@ -1029,6 +1105,18 @@ class FxFn(IoFn):
             return str(p.bytes[0]), env
         if p.kind == "lit":
             return str(p.v), env
+        if p.kind == "ppath":
+            if len(p.path) == 2 and p.path[0] in self.enums and any(vn == p.path[1] and not va for vn, va in self.enums[p.path[0]]["variants"]):
+                return self.enum_ctor(p.path[0], p.path[1]), env
+            self.err("pattern `%s`" % "::".join(p.path), p)
+        if p.kind == "pctor" and "::" in p.name:
+            en, vn = p.name.split("::")[-2:]
+            if en in self.enums and len(p.items) == 1:
+                for v2, va in self.enums[en]["variants"]:
+                    if v2 == vn and len(va) == 1:
+                        sub, env = self.pat_lean(p.items[0], self.parse_ty(va[0]), env)
+                        return "(%s %s)" % (self.enum_ctor(en, vn), sub), env
+            self.err("pattern `%s(…)`" % p.name, p)
         if p.kind == "pctor" and len(p.items) == 1 and p.name == "Err" and ty is not None and ty[0] == "res":
             er = err_of(ty)
             inner_ty = ("ioerr",) if er == "IoErr" else (("strlit",) if er == "String" else (ty[3] if len(ty) == 4 else ("enum", er)))
@@ -1461,6 +1549,8 @@ def _translate_unit(src, unit, fail):
         txt.append("variable " + " ".join("{%s : Type}" % g for g in gens))
     txt.append("")
     for ename, ed in unit.get("io_enums", {}).items():
+        if ed.get("lean"):
+            continue
         txt.append("/-- `enum %s` (variants the translated functions use) -/" % ename)
         txt.append("inductive %s where" % ename)
         for vn, vargs in ed["variants"]:
@@ -1670,11 +1760,25 @@ FX_OPS = {
     "chain": dict(ret="Chain", lean_ty="List Nat → σ → χ"),
 }
 FX_CHAIN = "io::Chain<io::Cursor<[u8; 1]>, R>"
+FX_OPS.update({
+    # `fasta::Reader::new(chain).records()` / `fastq::Reader::new(chain).records()`: the record iterators of the other two
+    # files over a fresh `BufReader` on the chained reader
+    "faRecordsNew": dict(ret="fasta::Records<R>", lean_ty="χ → α"),
+    "fqRecordsNew": dict(ret="fastq::Records<R>", lean_ty="χ → β"),
+})
+FX_EITHER = [("records", "Option<EitherRecordsInner<R>>"), ("reader", "Option<R>")]
 
 unit(name="SrcFastx", props="property C11", file="src/io/fastx.rs", dialect="fx",
-     generics={"R": "σ", "Chain": "χ", "Cursor": "χ"}, io_ops=FX_OPS,
-     pinned=["pub enum Kind { FASTQ, FASTA, }"],
-     io_enums={"Kind": dict(variants=[("FASTQ", []), ("FASTA", [])])},
+     generics={"R": "σ", "Chain": "χ", "Cursor": "χ", "fasta::Records": "α", "fastq::Records": "β"}, io_ops=FX_OPS,
+     records_ops={"fasta": "faRecordsNew", "fastq": "fqRecordsNew"},
+     pinned=["pub enum Kind { FASTQ, FASTA, }",
+             "enum EitherRecordsInner<R: BufRead> { FASTA(fasta::Records<R>), FASTQ(fastq::Records<R>), }",
+             "pub struct EitherRecords<R: BufRead> { records: Option<EitherRecordsInner<BufReader<io::Chain<io::Cursor<[u8; 1]>, R>>>>, "
+             "reader: Option<R>, }"],
+     io_enums={"Kind": dict(variants=[("FASTQ", []), ("FASTA", [])]),
+               # the enum over the two record iterators is the sum type of their (abstract) states
+               "EitherRecordsInner": dict(variants=[("FASTA", ["fasta::Records<R>"]), ("FASTQ", ["fastq::Records<R>"])],
+                                          lean="(α ⊕ β)", ctors={"FASTA": "Sum.inl", "FASTQ": "Sum.inr"})},
      functions=[
          dict(name="get_kind_detailed", lean="getKindDetailed", free=True,
               header="pub fn get_kind_detailed<R: Read>( mut reader: R, ) -> std::result::Result<(" + FX_CHAIN
@@ -1693,6 +1797,14 @@ unit(name="SrcFastx", props="property C11", file="src/io/fastx.rs", dialect="fx"
               self_fields=[], params=[("reader", "&mut R")], ret="io::Result<Kind>", outs=["reader"],
               ops=["readExact", "seekCur"], locals={"buf": "[u8; 1]"},
               theorem="RbV.Thm.GenSrcFastx.getKindSeek_eq_model"),
+         dict(name="EitherRecords::initialize", lean="eitherInitialize", header="fn initialize(&mut self) -> io::Result<()>",
+              self_fields=FX_EITHER, params=[], ret="io::Result<()>", outs=["self.records", "self.reader"],
+              ops=["readExact", "chain", "faRecordsNew", "fqRecordsNew"], siblings=["get_kind"],
+              theorem="RbV.Thm.GenSrcFastx.eitherInitialize_eq_model"),
+         dict(name="EitherRecords::kind", lean="eitherKind", header="pub fn kind(&mut self) -> io::Result<Kind>",
+              self_fields=FX_EITHER, params=[], ret="io::Result<Kind>", outs=["self.records", "self.reader"],
+              ops=["readExact", "chain", "faRecordsNew", "fqRecordsNew"], siblings=["initialize"],
+              theorem="RbV.Thm.GenSrcFastx.eitherKind_eq_model"),
      ])
 
 
